@@ -129,11 +129,8 @@ impl Add for I64 {
             (Num(lhs), Num(rhs)) => match lhs.checked_add(rhs) {
                 Some(n) => Num(n),
                 None => {
-                    if lhs > 0 && rhs > 0 || lhs < 0 && rhs < 0 {
-                        PlusInf
-                    } else {
-                        MinusInf
-                    }
+                    // overflow: both operands have the same sign
+                    if lhs > 0 { PlusInf } else { MinusInf }
                 }
             },
             (NaN, _) | (_, NaN) | (MinusInf, PlusInf) | (PlusInf, MinusInf) => NaN,
